@@ -12,8 +12,9 @@ from harness.framework import Suite
 
 PID = "C04"
 LEAN_MODS = ["SwcVerif.Props.C04", "SwcVerif.Props.C04Gen"]
-TRANSLATE_ALGO = ["AlgoTraverse"]      # Gen/AlgoTraverse.lean is regenerated from swc_utils/base.py::_traverse_dfs on every run
-DRIVER_FILES = ["SwcVerif/Model/AlgoRunTraverse.lean"]
+TRANSLATE_ALGO = ["AlgoTraverse", "AlgoTravFront"]      # (AlgoTravFront: the three public entry points, harness/algo_specs/04_travfront.py)
+# Gen/AlgoTraverse.lean is regenerated from swc_utils/base.py::_traverse_dfs on every run
+DRIVER_FILES = ["SwcVerif/Model/AlgoRunTraverse.lean", "SwcVerif/Model/AlgoRunTravFront.lean"]
 THEOREMS = [
     "C04.traverse_eq_spec", "C04.fuel_suffices", "C04.outside_untouched",
     "C04.enter_once_per_subtree_node", "C04.leave_once_per_subtree_node",
@@ -550,12 +551,23 @@ class Trav(Suite):
 
     def lines(self, case, res):
         if case.get("big") or "exc" in res or case.get("given", "both") != "both" or not isinstance(res.get("ret"), int):
-            return []
+            return self.front_lines(case, res)
         n = case["n"]
         line = f"trav ids={gen.ints(range(n))} pids={gen.ints(case['pids'])} root={case['root']}"
         want = " ".join(res["log"]) + f" ret={res['ret']} stack=0"
         # the hand-written step machine AND the definition generated from _traverse_dfs on this run (translator cross-check)
-        return [(line, want), ("g" + line, want)]
+        return [(line, want), ("g" + line, want)] + self.front_lines(case, res)
+
+    def front_lines(self, case, res):
+        """the ENTRY POINT the case went through (swc_utils.traverse / Tree.traverse / Tree.Node.traverse) as generated from the current
+        sources (Gen/AlgoTravFront.lean), specialised to the keyword set of the call: which callbacks are given, `root` passed or not"""
+        if case.get("big") or "exc" in res or res.get("miscalled") or not (res.get("ret") is None or isinstance(res.get("ret"), int)):
+            return []
+        given = {"both": "el", "enter": "e", "enter+None": "e", "leave": "l", "None+leave": "l"}[case.get("given", "both")]
+        api = {"swc_utils": "base", "tree": "tree", "node": "node"}[case["api"]]
+        root = "" if (api != "node" and case.get("rootas", "int") == "omitted") else f" root={case['root']}"
+        line = f"gtravfront api={api} given={given} ids={gen.ints(range(case['n']))} pids={gen.ints(case['pids'])}{root}"
+        return [(line, " ".join(res["log"]) + f" ret={res['ret']}")]
 
     def oracle(self, case, res):
         try:
